@@ -27,7 +27,8 @@ def merge_jobs(tier):
 
 
 def ensure_jobs(tier):
-    return [{"id": f"O3.ensure-context-txn.kind{k}", "func": "VerifH_C05_EnsureTxn", "conf": {"ctxkind": k, "dag": "", "orders": "all", "shortid": 0},
+    return [{"id": "O1.save-collection-again", "func": "VerifH_C05_SaveCollectionFaults", "conf": {"branchable": 0, "faults": 0, "dag": "", "orders": "all", "shortid": 0, "for": "C05"},
+             "_obligation": "O1", "_covers": ["saved-again"], "unwind": 80}] + [{"id": f"O3.ensure-context-txn.kind{k}", "func": "VerifH_C05_EnsureTxn", "conf": {"ctxkind": k, "dag": "", "orders": "all", "shortid": 0},
              "_obligation": "O3", "_covers": ["ensured"], "unwind": 40} for k in (0, 1, 2, 3)]
 
 
@@ -70,7 +71,7 @@ PROPERTY = {
         dict(_c02.SUITE, name="merge", jobs=merge_jobs),
         dict(_c20.SAVE_SUITE, name="save", jobs=save_jobs),
         dict(_c20.SAVE_SUITE, name="api", jobs=api_jobs, redirects=_c20.API_REDIR, files=_c20.SAVE_FILES + ["zz_verif_c20api.go"], common=["intrinsics", "kvmodel", "dagenv", "kvtxn"]),
-        dict(_c02.SUITE, name="ensuretxn", jobs=ensure_jobs, files=["zz_verif_env.go", "zz_verif_merge.go", "zz_verif_c05txn.go"]),
+        dict(_c02.SUITE, name="ensuretxn", jobs=ensure_jobs, files=["zz_verif_env.go", "zz_verif_merge.go", "zz_verif_c07uniq.go", "zz_verif_save.go", "zz_verif_c05txn.go"]),
         dict(_c02.SUITE, name="index", jobs=index_jobs, files=["zz_verif_env.go", "zz_verif_merge.go", "zz_verif_c07uniq.go", "zz_verif_c07maint.go"]),
         {"name": "fetch", "pkg": "internal/db/fetcher", "files": ["zz_verif_c03.go", "zz_verif_c07.go", "zz_verif_c05fetch.go"],
          "common": ["intrinsics", "kvmodel", "dagenv"], "jobs": fetch_jobs, "unwind": 60, "overrides": {"github.com/sourcenetwork/defradb/client.CborNil": "bytes:f6"}},
